@@ -244,10 +244,35 @@ def items_for(header, kinds=("plain", "deprecated", "never")):
             yield f"{hid}/{kind}/IsVariant/unit-enum", D("IsVariant") + f" pub enum E{decl} {{ Alpha, {dep}BetaGamma }}"
 
 
+# Items whose generic parameters occur in unusual syntactic positions (the header grid above uses every parameter as a
+# plain generic argument): a const parameter only inside an expression (array length, braced argument), a lifetime only
+# inside a reference / trait object, a type parameter only inside a tuple / array / fn pointer.
+POSITION_ITEMS = [
+    ("pos/plain/AsRef/const-array-len-field", 'AsRef, derive_more::AsMut', "pub struct S<const N: usize>(#[as_ref(P)] #[as_mut(P)] pub [P; N]);"),
+    ("pos/plain/AsRef/const-array-len-struct", 'AsRef, derive_more::AsMut', "#[as_ref(P)] #[as_mut(P)] pub struct S<const N: usize>(pub [P; N]);"),
+    ("pos/plain/AsRef/const-braced-arg", 'AsRef, derive_more::AsMut', "#[as_ref(P)] #[as_mut(P)] pub struct S<const N: usize>(pub K<{ N }>);"),
+    ("pos/plain/AsRef/const-listed-type", 'AsRef', "#[as_ref([P; N])] pub struct S<const N: usize>(pub Vec<P>);"),
+    ("pos/plain/AsRef/const-and-lifetime", 'AsRef', "#[as_ref(P)] pub struct S<'a, const N: usize>(pub &'a [P; N]);"),
+    ("pos/plain/AsRef/type-in-tuple", 'AsRef, derive_more::AsMut', "#[as_ref(P)] #[as_mut(P)] pub struct S<T>(pub (T, P));"),
+    ("pos/plain/AsRef/type-in-array", 'AsRef, derive_more::AsMut', "#[as_ref([P])] #[as_mut([P])] pub struct S<T>(pub [T; 2]);"),
+    ("pos/plain/AsRef/type-in-fn-pointer", 'AsRef', "#[as_ref(P)] pub struct S<T>(pub fn(T) -> P);"),
+    ("pos/plain/AsRef/lifetime-in-dyn", 'AsRef', "#[as_ref(P)] pub struct S<'a>(pub Box<dyn Fn() -> P + 'a>);"),
+    ("pos/plain/From/const-array-len", 'From', "#[from(forward)] pub struct S<const N: usize>(pub [P; N]);"),
+    ("pos/plain/Into/const-array-len", 'Into', "#[into(ref)] pub struct S<const N: usize>(pub [P; N], pub K<N>);"),
+    ("pos/plain/Deref/const-array-len", 'Deref, derive_more::DerefMut', "#[deref(forward)] #[deref_mut(forward)] pub struct S<const N: usize>(pub Box<[P; N]>);"),
+    ("pos/plain/Index/const-array-len", 'Index, derive_more::IndexMut', "pub struct S<const N: usize>(pub [P; N]);"),
+    ("pos/plain/IntoIterator/const-array-len", 'IntoIterator', "#[into_iterator(owned, ref, ref_mut)] pub struct S<const N: usize>(pub [P; N]);"),
+    ("pos/plain/Display/const-array-len", 'Debug', "pub struct S<T, const N: usize>(pub [T; N]);"),
+    ("pos/plain/Constructor/const-array-len", 'Constructor', "pub struct S<const N: usize> { pub a: [P; N], pub b: K<{ N }> }"),
+]
+
+
 def all_items(kinds=("plain", "deprecated", "never"), headers=None):
     out = []
     for h in HEADERS:
         if headers and h[0] not in headers:
             continue
         out += list(items_for(h, kinds))
+    if "plain" in kinds and not headers:
+        out += [(name, f"#[derive(derive_more::{d})] {src}") for name, d, src in POSITION_ITEMS]
     return out
